@@ -86,6 +86,243 @@ def canon_key(key):
     k, name, data, filters = key
     return "%d %s %s %s" % (k, hx(name), hx(data), fl(filters))
 
+def nulfree(rng, n):
+    return rng.getrandbits(8 * n).to_bytes(n, "little").replace(b"\0", b"\x01") if n else b""
+
+def sized_strlists(rng, quick):
+    """lists of NUL-free strings whose encoded size (sum of length + 1) is each of KEY_LENGTHS: as one string, as two, as many short ones"""
+    out = []
+    for total in KEY_LENGTHS[1:]:
+        out.append([nulfree(rng, total - 1)])
+        if total >= 2:
+            a = rng.randrange(0, total - 1)
+            out.append([nulfree(rng, a), nulfree(rng, total - 2 - a)])
+        if total <= 600 or not quick:
+            out.append([b""] * total)
+    return out
+
+def norm_show(s):
+    """accessor view "<kind> <sig> <infos> <strs>" with every checksum printed as 32 bytes"""
+    p = s.split(" ")
+    if len(p) < 4:
+        return s
+    if p[2] != ".":
+        p[2] = ";".join(":".join(x.split(":")[:6]) + ":" + (x.split(":")[6] if x.split(":")[6] != "-" else "").ljust(64, "0") for x in p[2].split(";"))
+    return " ".join(p)
+
+def value_tokens(v):
+    k, sig, infos, strs = v
+    # kinds that take one info ignore the rest; kinds without infos ignore the field; "." = no outputs at all (kinds 10, 17)
+    return "%d %d %s %s" % (k, sig, ";".join(infos) if infos else ("." if k in (10, 17) else "0:1:0:0:0:0:-"), fl(strs))
+
+def value_shapes(rng):
+    """one value per (kind, shape): string lists [] / [""] / non-empty, 0..3 outputs, every other kind once"""
+    out = []
+    for k in range(18):
+        if k in HAS_STRS:
+            for strs in ([], [b""], [rnd_str(rng) or b"x" for _ in range(rng.randint(1, 4))]):
+                out.append((k, 0, [rnd_fi(rng)] if k == 4 else [], strs))
+        elif k in (10, 17):
+            for n in (0, 1, 2, 3):
+                out.append((k, rnd_u64(rng) if k == 17 else 0, [rnd_fi(rng) for _ in range(n)], []))
+        else:
+            out.append(gen_value(rng, k))
+    return out
+
+# ---- re-used BuildValue objects: an object that held other values receives a new one (move-assignment, assignment of a
+# copy, of a decoded value, after having been moved from, self-assignment, swap); it must then be indistinguishable
+# from a freshly made value: same bytes (canonical), same accessors, same decode.
+def phase_value_reuse(chk, drv, model):
+    rng = chk.rng
+    hists = []
+    shapes0 = value_shapes(rng)
+    for old in shapes0:
+        for new in value_shapes(rng):
+            hists.append([old, new])
+    for _ in range(chk.n(400, 30000)):
+        hists.append([rng.choice(shapes0) if rng.random() < 0.5 else gen_value(rng) for _ in range(rng.randint(2, 5))])
+    # the shapes the seeded-change reports name explicitly
+    fi1, fi2 = rnd_fi(rng), rnd_fi(rng)
+    hists += [[(7, 0, [], [b"a.out", b"b.out"]), (7, 0, [], [])], [(4, 0, [fi1], [b"a.out", b"b.out"]), (4, 0, [fi2], [])],
+              [(16, 0, [], [b"a.out"]), (7, 0, [], [])], [(16, 0, [], [b"a"]), (15, 0, [], []), (2, 0, [fi1], []), (4, 0, [fi2], [])]]
+    reqs = ["value_assign " + " ".join(value_tokens(v) for v in h) for h in hists]
+    mreqs = [x for h in hists for x in ("value_enc " + value_tokens(h[-1]), "value_enc " + value_tokens(h[-2]))]
+    o1, crashes = run_surviving(drv, reqs, 1200, "N fresh ")
+    rc2, o2, e2 = vlib.run_lines(model, mreqs, timeout=1200)
+    assert rc2 == 0 and len(o2) == len(mreqs), e2[-500:]
+    ndis = 0
+    for i, (h, rq, ans) in enumerate(zip(hists, reqs, o1)):
+        if ans is not None:
+            ndis += check_reuse_answer(chk, h, rq, ans, {"N": o2[2 * i], "O": o2[2 * i + 1]})
+    # where the full set of steps crashed (or was not run any more), the basic steps alone may still answer
+    redo = [i for i, a in enumerate(o1) if a is None]
+    o3, _ = run_surviving(drv, [reqs[i].replace("value_assign ", "value_assign_basic ", 1) for i in redo], 1200, "N fresh ")
+    for i, ans in zip(redo, o3):
+        if ans is not None:
+            ndis += check_reuse_answer(chk, hists[i], reqs[i], ans, {"N": o2[2 * i], "O": o2[2 * i + 1]})
+    for i, rc, err in crashes:
+        chk.violation("value-reuse-crash", "the implementation crashed while assigning one BuildValue over another and encoding the results: history (newest first) %s"
+                      % " <- ".join(canon_value(v) for v in reversed(hists[i]))[:300],
+                      dict(rc=rc, stderr=err, input=reqs[i], crashing_inputs=len(crashes)), broken="c15 oracle (re-used value objects) on implementation")
+    chk.sample(dict(kind="value re-use", input=reqs[5], answer=(o1[5] or "<crash>")[:300] + "..."))
+    chk.cov["value_reuse_histories"] = len(hists)
+    return ndis
+
+def run_surviving(drv, reqs, timeout, prefix):
+    """answers of the driver, None where it died on a request (it is restarted on the following one; at most 25 times)"""
+    out, crashes = [], []
+    while len(out) < len(reqs):
+        rc, o, e = vlib.run_lines(drv, reqs[len(out):], timeout=timeout)
+        bad = [j for j, x in enumerate(o) if not x.startswith(prefix)]      # a line cut short by the crash
+        out += (o[:bad[0]] if bad else o)[:len(reqs) - len(out)]
+        if len(out) < len(reqs):
+            crashes.append((len(out), rc, e[-1500:]))
+            out.append(None)
+            if len(crashes) >= 25:
+                out += [None] * (len(reqs) - len(out))
+    return out, crashes
+
+def check_reuse_answer(chk, h, rq, ans, model_bytes):
+    """ans: items "<want N|O> <label> <bytes> | <accessors> | <accessors after decode or =>" joined by " ## ".
+    Returns the number of model/implementation disagreements."""
+    want = {"N": h[-1], "O": h[-2]}
+    canon = {w: norm_show(canon_value(v)) for w, v in want.items()}
+    fresh, ndis = {}, 0
+    for item in ans.split(" ## "):
+        parts = item.split(" | ")
+        w, label, got = parts[0].split(" ")
+        show = norm_show(parts[1])
+        show_rd = show if parts[2] == "=" else norm_show(parts[2])
+        chk.count(("reuse", label, want[w][0], h[-2][0] if w == "N" else h[-1][0], bool(h[-2][3]), bool(h[-1][3])))
+        hist = " <- ".join(canon_value(v) for v in reversed(h))
+        if label == "fresh":
+            fresh[w] = got
+            if got != model_bytes[w]:
+                ndis += 1
+                chk.notes.setdefault("value_enc_disagreements", []).append(dict(input=rq, which=w, implementation=got, model=model_bytes[w]))
+        elif got != fresh[w]:
+            # the property's own oracle: equal values encode to identical bytes
+            chk.violation("value-reuse-not-canonical",
+                          "a BuildValue object that is re-used (%s) does not encode like a freshly made equal value: history (newest first) %s" % (label, hist[:300]),
+                          dict(input=rq, step=label, expected_value=canon_value(want[w]), bytes_of_fresh_value=fresh[w], bytes_of_reused_object=got,
+                               accessors_of_reused_object=parts[1], model_bytes=model_bytes[w]),
+                          broken="c15 oracle (canonical encoding of a re-used value object) on implementation")
+            continue
+        if show != canon[w] or show_rd != canon[w]:
+            chk.violation("value-reuse-accessors",
+                          "a BuildValue object that is re-used (%s) does not show / decode to the value it was given: history (newest first) %s" % (label, hist[:300]),
+                          dict(input=rq, step=label, expected_value=canon[w], accessors=parts[1], accessors_after_decode=parts[2], bytes=got),
+                          broken="c15 oracle (round trip of a re-used value object) on implementation")
+    return ndis
+
+# ---- keys whose name/path length puts every kind of byte into the 32-bit size field (0x7f/0x80/0xff in the first and in
+# the second place, carries into the third), for EVERY kind, followed by task data / filter lists; every accessor of the
+# key as made, as decoded from its bytes, as copy-assigned and move-assigned over another key is compared.
+KEY_LENGTHS = [0, 1, 127, 128, 129, 255, 256, 300, 511, 512, 32767, 32768, 40000, 65535, 65536]
+KEY_ACCESSORS = {0: "getCommandName", 1: "getCustomTaskName/getCustomTaskData", 2: "getDirectoryPath",
+                 3: "getFilteredDirectoryPath/getContentExclusionPatterns", 4: "getDirectoryTreeSignaturePath/getContentExclusionPatterns",
+                 5: "getFilteredDirectoryPath/getContentExclusionPatterns", 6: "getNodeName", 7: "getStatName", 8: "getTargetName"}
+
+def rnd_name(rng, n):
+    if n == 0: return b""
+    r = rng.random()
+    if r < 0.3: return bytes([rng.choice([0x2f, 0x61, 0x00, 0x80, 0xff])]) * n
+    return rng.getrandbits(8 * n).to_bytes(n, "little")
+
+def rnd_len(rng, big):
+    r = rng.random()
+    if r < 0.25: return rng.randrange(128, 256)
+    if r < 0.4: return 256 * rng.randrange(1, 8) + rng.randrange(128, 256)
+    if r < 0.5 and big: return rng.randrange(32768, 70000)
+    if r < 0.55 and big: return 65536 * rng.randrange(1, 4) + rng.choice([0, 1, 127, 128, 255, 32768])
+    if r < 0.7: return rng.choice(KEY_LENGTHS[:10])
+    return rng.randrange(0, 1100)
+
+def key_payloads(rng, k, few):
+    if k == 1:
+        l = [(b"", []), (b"\x00\x80task-data\xff", []), (rnd_str(rng, allow_nul=True), [])]
+    elif k in (3, 4, 5):
+        l = [(b"", []), (b"", [b"*.o"]), (b"", [b"*.o", b"build", b".git"]), (b"", [b""]), (b"", rnd_strs(rng))]
+    else:
+        return [(b"", [])]
+    return [l[0], rng.choice(l[1:])] if few else l
+
+def phase_key_lengths(chk, drv, model, kseen):
+    rng = chk.rng
+    keys = []
+    for L in KEY_LENGTHS:
+        for k in range(9):
+            for data, filters in key_payloads(rng, k, few=(L > 600 and chk.quick())):
+                keys.append((k, rnd_name(rng, L), data, filters))
+    # filter lists of every such size as well, after short names and after names of the critical lengths
+    for strs in sized_strlists(rng, chk.quick()):
+        k = rng.choice([3, 4, 5])
+        keys.append((k, rnd_name(rng, rng.choice([0, 3, 127, 128, 255, 256])), b"", strs))
+    for i in range(chk.n(400, 6000)):
+        k = rng.randrange(9)
+        data, filters = rng.choice(key_payloads(rng, k, False))
+        keys.append((k, rnd_name(rng, rnd_len(rng, big=(i % 8 == 0))), data, filters))
+    reqs = ["key_acc %d %s %s %s" % (k, hx(n), hx(d), fl(f)) for (k, n, d, f) in keys]
+    rc1, o1, e1 = vlib.run_lines(drv, reqs, timeout=1800)
+    if rc1 != 0 or len(o1) != len(reqs):
+        bad = keys[min(len(o1), len(keys) - 1)]
+        chk.violation("key-accessor-crash", "the implementation crashed while making / decoding / reading a BuildKey of kind %d with a %d-byte name" % (bad[0], len(bad[1])),
+                      dict(rc=rc1, stderr=e1[-1500:], input=reqs[min(len(o1), len(reqs) - 1)][:4000]), broken="c15 oracle (key round trip) on implementation")
+        return 0
+    encs = [a.split(" | ")[0] for a in o1]
+    rc2, m1, e2 = vlib.run_lines(model, ["key_enc " + r[8:] for r in reqs], timeout=1800)
+    rc3, m2, e3 = vlib.run_lines(model, ["key_dec " + e for e in encs], timeout=1800)
+    assert rc2 == 0 and len(m1) == len(reqs), e2[-500:]
+    assert rc3 == 0 and len(m2) == len(reqs), e3[-500:]
+    ndis = 0
+    for key, rq, ans, menc, mdec in zip(keys, reqs, o1, m1, m2):
+        ndis += check_key_answer(chk, key, rq, ans, menc, mdec, kseen)
+    chk.sample(dict(kind="key accessors", input=reqs[40][:200], answer=o1[40][:300]))
+    chk.cov["key_length_cases"] = len(keys)
+    chk.cov["key_name_lengths"] = "%s + random (128..255, 256k+128..255, 32768..70000, 65536k+...)" % KEY_LENGTHS
+    return ndis
+
+def check_key_answer(chk, key, rq, ans, menc, mdec, kseen):
+    """ans: "<bytes> | <made> | <decoded> | <copy-assigned> | <move-assigned> | <toData of the last three>", "=" = as before.
+    Each view is "<kind> <name> <data> <filters> <raw filter bytes>". Returns the number of model disagreements."""
+    k, name, data, filters = key
+    ck = canon_key(key)
+    parts = ans.split(" | ")
+    enc = parts[0]
+    views, prev = [], None
+    for p in parts[1:5]:
+        prev = prev if p == "=" else p
+        views.append(prev)
+    chk.count(("kacc", k, len(name), len(data), len(filters)))
+    short = lambda s: s if len(s) < 400 else s[:160] + "...(%d hex digits)..." % len(s) + s[-160:]
+    for which, view in zip(("made by its factory", "decoded from its bytes", "copy-assigned over another key", "move-assigned over another key"), views):
+        f = view.split(" ")
+        if " ".join(f[:4]) != ck or (f[4] != "-" and not enc.endswith(f[4])):
+            got = "kind %s name %s data %s filters %s raw-filter-bytes %s" % tuple(short(x) for x in f[:5])
+            chk.violation("key-accessor-roundtrip",
+                          "a BuildKey of kind %d (%s) with a %d-byte name, %d byte(s) of task data and %d filter(s), %s, does not give back what it was made from"
+                          % (k, KEY_ACCESSORS[k], len(name), len(data), len(filters), which),
+                          dict(input=short(rq), name_length=len(name), name_length_bytes_le=list(len(name).to_bytes(4, "little")), which=which,
+                               expected=short(ck), accessors=got, encoding=short(enc)),
+                          broken="c15 oracle (key round trip through every accessor) on implementation")
+            return 0
+    if parts[5] != "= = =":
+        chk.violation("key-not-canonical", "a BuildKey decoded from bytes / assigned over another key does not give back the same bytes",
+                      dict(input=short(rq), encoding=short(enc), todata_decoded_copyassigned_moveassigned=short(parts[5])),
+                      broken="c15 oracle (canonical encoding) on implementation")
+    if enc in kseen and kseen[enc] != ck:
+        chk.violation("key-encoding-collision", "two different BuildKeys encode to identical bytes", dict(key1=short(kseen[enc]), key2=short(ck), bytes=short(enc)),
+                      broken="c15 oracle (injectivity) on implementation")
+    kseen[enc] = ck
+    ndis = 0
+    if enc != menc:
+        ndis += 1
+        chk.notes.setdefault("key_enc_disagreements", []).append(dict(input=short(rq), implementation=short(enc), model=short(menc)))
+    if mdec != ck:
+        ndis += 1
+        chk.notes.setdefault("key_dec_disagreements", []).append(dict(bytes=short(enc), implementation=short(ck), model=short(mdec)))
+    return ndis
+
 def run(chk):
     drv = vlib.build_drivers(["leaf_driver"])["leaf_driver"]
     vt, vkinds, cok, koc = probe(drv)
@@ -114,6 +351,10 @@ def run(chk):
     values = [gen_value(rng, k) for k in range(18) for _ in range(20)] + [gen_value(rng) for _ in range(N)]
     # corpus: boundary shapes
     values += [(7, 0, [], []), (7, 0, [], [b""]), (16, 0, [], [b"", b""]), (4, 0, [rnd_fi(rng)], []), (17, 2**64 - 1, [rnd_fi(rng)] * 2, [])]
+    # string lists whose total size puts 0x7f / 0x80 / 0xff into the first and second byte of the 64-bit size field
+    for strs in sized_strlists(rng, chk.quick()):
+        k = rng.choice([4, 7, 16])
+        values.append((k, 0, [rnd_fi(rng)] if k == 4 else [], strs))
     reqs = ["value_enc %d %d %s %s" % (k, sig, ";".join(infos) if infos else "0:1:0:0:0:0:-", fl(strs)) for (k, sig, infos, strs) in values]
     # note: kinds that take one info ignore the rest; kinds without infos ignore the field
     rc1, o1, e1 = vlib.run_lines(drv, reqs, timeout=1200)
@@ -165,6 +406,13 @@ def run(chk):
             elif norm(a) != norm(b):
                 ndis += 1
                 chk.notes.setdefault("value_dec_disagreements", []).append(dict(bytes=enc, implementation=a, model=b))
+    # no bytes at all decode to the Invalid value on both sides (BuildValue(BinaryDecoder&): coder.isEmpty())
+    rcE, dE, _ = vlib.run_lines(drv, ["value_dec -"])
+    rcM, mE, _ = vlib.run_lines(model, ["value_dec -"])
+    chk.count(("v", "decode of zero bytes"))
+    if dE != mE:
+        ndis += 1
+        chk.notes.setdefault("value_dec_disagreements", []).append(dict(bytes="-", implementation=dE, model=mE))
     # output-count boundaries: round trip on the implementation for counts around 2^8 and 2^16
     mreq = ["value_many %d %d" % (k, n) for k in (10, 17) for n in (255, 256, 257, 65535, 65536, 65537, 70001)]
     rc1, m1, e1 = vlib.run_lines(drv, mreq, timeout=600)
@@ -173,6 +421,10 @@ def run(chk):
         if not a.startswith("OK"):
             chk.violation("value-many-outputs", "a value with many outputs does not survive encode/decode on the implementation: %s -> %s" % (rq, a[:200]),
                           dict(input=rq, implementation=a[:2000]), broken="c15 oracle (round trip, large output counts)")
+    # objects that are re-used: assignment over other values, moved-from objects, self-assignment, swap
+    ndis += phase_value_reuse(chk, drv, model)
+    # keys: name lengths that exercise every byte of the 32-bit size field, every accessor (safe against wild sizes)
+    ndis += phase_key_lengths(chk, drv, model, {})
     # keys
     keys = [gen_key(rng, k) for k in range(9) for _ in range(30)] + [gen_key(rng) for _ in range(N // 2)]
     kreq = ["key_enc %d %s %s %s" % (k, hx(n), hx(d), fl(f)) for (k, n, d, f) in keys]
@@ -221,6 +473,8 @@ def run(chk):
                        "decoders are only given bytes produced by the encoders (the C++ decoder does not bounds-check)"]
     return chk.finish(level="proof",
                       rule="values of every kind built through every public factory with boundary-valued 64-bit fields, 1-9 outputs, string lists incl. [] / [\"\"] / non-UTF-8; keys of every kind incl. NUL in length-prefixed parts. "
+                           "re-use: every (kind, shape) x (kind, shape) pair of old/new value (string lists [] / [\"\"] / non-empty, 0-3 outputs) + random histories of 2-5 values, new value received by move-assignment / "
+                           "copy / decode, into moved-from, decoded, self-assigned, swapped objects; keys: name lengths 0..65536 (see key_name_lengths) for all 9 kinds with task data / filter lists, every accessor. "
                            "non-trivial = carries at least one info, string or signature; distinct by canonical field tuple",
                       trusted=["hand-written model coq/Codec/Codec.v tied by correspondence", "harness/cpp/leaf_driver.cpp", "extraction (ExtrOcamlBasic) + ocaml/vmodel.ml"])
 
